@@ -766,7 +766,8 @@ fn reference_pass(wl: &Workload, alt: bool) -> RefOut {
     cfg.stack_size = 256 << 20;
     cfg.failure_persistence = shuttle::FailurePersistence::None;
     let runner = shuttle::Runner::new(shuttle::scheduler::RandomScheduler::new_from_seed(1, 1), cfg);
-    runner.run(move || {
+    let wl_err = wl.clone();
+    let ran = std::panic::catch_unwind(std::panic::AssertUnwindSafe(move || runner.run(move || {
         namer::reset();
         // every call into qrlew happens inside a simulated execution (its lock and preemption
         // points belong to the scheduler), the catalogue construction included
@@ -836,9 +837,27 @@ fn reference_pass(wl: &Workload, alt: bool) -> RefOut {
         }
         let sh = ctx.shared.lock().unwrap();
         *out2.lock().unwrap() = Some((rel2.clone(), refs, sh.violations.clone(), sh.probes.clone()));
-    });
-    let r = out.lock().unwrap().take().expect("reference pass did not run");
-    r
+    })));
+    let got = out.lock().unwrap().take();
+    match (ran, got) {
+        (Ok(_), Some(r)) => r,
+        (ran, _) => {
+            // the quiescent pass itself died outside the per-call catch (a panic while unwinding
+            // from a caught one, a lock taken in a destructor after the pass): no reference exists
+            let msg = match ran {
+                Err(p) => p.downcast_ref::<String>().cloned().or_else(|| p.downcast_ref::<&str>().map(|s| s.to_string())).unwrap_or_else(|| "<panic>".into()),
+                Ok(_) => "no result".into(),
+            };
+            let v = Violation {
+                property: "C16".into(),
+                invariant: "no_progress_or_panic".into(),
+                class: "unclassified".into(),
+                detail: format!("the quiescent single-threaded pass over the workload's queries did not run to completion: {}", first_line(&msg)),
+                witness: json!({"message": msg.chars().take(600).collect::<String>(), "queries": wl_err.queries}),
+            };
+            (qrlew::hierarchy::Hierarchy::empty(), vec![], vec![v], BTreeMap::new())
+        }
+    }
 }
 
 #[derive(Serialize, Deserialize, Clone, Debug)]
@@ -881,6 +900,11 @@ fn run_one(wl: Workload, keep: bool) -> RunRecord {
                 }
                 format!("{:016x}", hash64(&h))
             };
+            // without a reference (the quiescent pass died) there is nothing to compare a history with
+            let mut wl = wl;
+            if refs.len() != wl.queries.len() || (wl.sc_alt.is_some() && refs_alt.len() != wl.queries.len()) {
+                wl.threads = vec![];
+            }
             let shared = Arc::new(Mutex::new(Shared::default()));
             let ctx = Arc::new(Ctx { wl: wl.clone(), relations, refs, relations_alt, refs_alt, shared: shared.clone() });
             let mut cfg = shuttle::Config::new();
